@@ -113,8 +113,13 @@ def run_history(hist, batch):
             elif ev == "flush":
                 w.flush()
                 commit_points.add(len(written))
-            elif ev == "close":
-                w.close()
+            elif ev in ("close", "exit-exc", "exit"):
+                if ev == "close":
+                    w.close()
+                elif ev == "exit":
+                    w.__exit__(None, None, None)
+                else:  # leaving a with-block by an exception still closes the writer: everything accepted must be there
+                    w.__exit__(ValueError, ValueError("body failed"), None)
                 closed = True
                 commit_points.add(len(written))
             # observe
@@ -205,7 +210,7 @@ def run_hist_case(case):
             viol.append(("C18:content-depends-on-batch-size:%d-vs-%d" % (BATCHES[0], b), case, {"batch": b}))
     seen = set()
     v2 = [v for v in viol if not (v[0] in seen or seen.add(v[0]))]
-    return {"ev": len(BATCHES) * max(1, len(hist)), "h": h, "nt": nwritten > 0, "out": "hist:w%d:%s" % (min(nwritten, 4), "closed" if "close" in hist else "open"),
+    return {"ev": len(BATCHES) * max(1, len(hist)), "h": h, "nt": nwritten > 0, "out": "hist:w%d:%s" % (min(nwritten, 4), "closed" if hist[-1] in ("close", "exit", "exit-exc") else "open"),
             "viol": v2, "states": states, "count": {"observer_reads": len(BATCHES) * len(hist), "histories_compared_across_batch_sizes": 1},
             "sample": case if int(h, 16) % 1999 == 0 else None}
 
@@ -388,6 +393,10 @@ def cases(tier, seed):
             if "bad" in hist:
                 yield {"kind": "hist", "hist": list(hist) + ["close"]}
                 yield {"kind": "hist", "hist": list(hist)}
+    for k in range(1, 5):
+        for hist in itertools.product(["A", "B", "A+", "flush"], repeat=k):
+            for closer in ("exit", "exit-exc"):
+                yield {"kind": "hist", "hist": list(hist) + [closer]}
     for n in range(1, 9):
         yield {"kind": "hist", "hist": ["A"] * n}
         yield {"kind": "hist", "hist": ["A"] * n + ["close"]}
